@@ -22,6 +22,12 @@ A case (JSON-able):
          "Initial dependency analysis" = generate_status_report_for_nodes, _comp_get_active_predecessors,
          get_node_state, _true_nodes_from_identifiers, _input_dependencies_satisfied,
          _get_placeholder_nodes_in_stage) run after each iteration / after the last one
+  more   optional [{S, dwname, comps, ibind, binds, loopb, cond}, ...]: FURTHER DoWhile documents imported by the same
+         workflow (document j >= 1 is written to conf/dowhile<j>.yaml); the (stage, name) pairs of all looped
+         components are pairwise distinct
+  seq    optional [document index, ...]: the order in which iterations are instantiated (document 0 = the one
+         described at top level); default [0] * k.  k = seq.count(0)
+  import_order  optional permutation of the document indices: the order of the importing components in the package
 """
 import logging
 import os
@@ -43,15 +49,31 @@ def _args(refs):
     return ' '.join(r for r in refs if r.rsplit(':', 1)[1] not in ('copy', 'link')) or 'hello'
 
 
-def documents(case):
-    types = dict((b, t) for b, t in case['ibind'])
+LOOP_KEYS = ('S', 'dwname', 'comps', 'ibind', 'binds', 'loopb', 'cond')
+
+
+def loops_of(case):
+    """the DoWhile documents of a case: the one described at top level, then case['more']"""
+    return [dict((k, case[k]) for k in LOOP_KEYS)] + [dict(l) for l in (case.get('more') or [])]
+
+
+def sequence_of(case):
+    return list(case['seq']) if case.get('seq') is not None else [0] * case['k']
+
+
+def dw_file(j):
+    return 'dowhile.yaml' if j == 0 else 'dowhile%d.yaml' % j
+
+
+def _dw_document(loop):
+    types = dict((b, t) for b, t in loop['ibind'])
     dw = {'type': 'DoWhile',
-          'inputBindings': dict((b, {'type': t}) for b, t in case['ibind']),
-          'condition': ref_str(case['cond'][0], case['cond'][1], case['cond'][2], 'output'),
+          'inputBindings': dict((b, {'type': t}) for b, t in loop['ibind']),
+          'condition': ref_str(loop['cond'][0], loop['cond'][1], loop['cond'][2], 'output'),
           'components': []}
-    if case['loopb']:
-        dw['loopBindings'] = dict((b, ref_str(v[0], v[1], v[2], types[b])) for b, v in case['loopb'])
-    for c in case['comps']:
+    if loop['loopb']:
+        dw['loopBindings'] = dict((b, ref_str(v[0], v[1], v[2], types[b])) for b, v in loop['loopb'])
+    for c in loop['comps']:
         refs = []
         for r in c['refs']:
             if r[0] == 'B':
@@ -63,18 +85,33 @@ def documents(case):
         if c['stage'] or c.get('explicit_stage'):
             d['stage'] = c['stage']
         dw['components'].append(d)
+    return dw
+
+
+def documents_multi(case):
+    """-> main document, [DoWhile document of every loop]"""
+    loops = loops_of(case)
     comps = []
     for name, st in case['srcs']:
         comps.append({'stage': st, 'name': name, 'command': {'executable': 'echo', 'arguments': 'src'}})
-    imp = {'stage': case['S'], '$import': 'dowhile.yaml', 'name': case['dwname']}
-    if case['binds']:
-        imp['bindings'] = dict((b, ref_str(v[0], v[1], v[2], types[b])) for b, v in case['binds'])
-    comps.append(imp)
+    for j in (case.get('import_order') or range(len(loops))):
+        loop = loops[j]
+        types = dict((b, t) for b, t in loop['ibind'])
+        imp = {'stage': loop['S'], '$import': dw_file(j), 'name': loop['dwname']}
+        if loop['binds']:
+            imp['bindings'] = dict((b, ref_str(v[0], v[1], v[2], types[b])) for b, v in loop['binds'])
+        comps.append(imp)
     for o in case['outs']:
         refs = [ref_str(*r) for r in o['refs']]
         comps.append({'stage': o['stage'], 'name': o['name'], 'references': refs,
                       'command': {'executable': 'echo', 'arguments': _args(refs)}})
-    return {'components': comps}, dw
+    return {'components': comps}, [_dw_document(l) for l in loops]
+
+
+def documents(case):
+    """-> main document, DoWhile document (of the first loop)"""
+    main, dws = documents_multi(case)
+    return main, dws[0]
 
 
 class _FakeStatus:
@@ -111,7 +148,9 @@ def _inspect(ctl, exp, keep, start, rnd):
     later = [st for st in exp._stages if st.index > start]
     if later:
         ctl.initialise(later[rnd % len(later)], _FakeStatus())
-    ctl.generate_status_report_for_nodes()
+    report = ctl.generate_status_report_for_nodes()
+    # the components the status report tags as 'C: the latest condition of a DoWhile'
+    view['__ctags__'] = sorted(line[2:].split('[', 1)[0] for line in report.split('\n') if line.startswith('C:'))
     ctl.generate_status_report_for_nodes(components=sorted(g._placeholders), filter_done=True)
     for st in exp._stages:
         ctl._get_placeholder_nodes_in_stage(st.index)
@@ -137,7 +176,8 @@ def drive(case):
     import experiment.model.graph as G
     import experiment.model.frontends.flowir as F
     FlowIR = F.FlowIR
-    main, dw = documents(case)
+    main, dws = documents_multi(case)
+    loops = loops_of(case)
     tmp = tempfile.mkdtemp(prefix='verif_c05_')
     cwd = os.getcwd()
     obs = {}
@@ -146,8 +186,9 @@ def drive(case):
         os.makedirs(os.path.join(pkg, 'conf'))
         with open(os.path.join(pkg, 'conf', 'flowir_package.yaml'), 'w') as f:
             yaml.safe_dump(main, f)
-        with open(os.path.join(pkg, 'conf', 'dowhile.yaml'), 'w') as f:
-            yaml.safe_dump(dw, f)
+        for j, dw in enumerate(dws):
+            with open(os.path.join(pkg, 'conf', dw_file(j)), 'w') as f:
+                yaml.safe_dump(dw, f)
         try:
             ep = experiment.model.storage.ExperimentPackage.packageFromLocation(pkg)
             exp = experiment.model.data.Experiment.experimentFromPackage(ep, location=tmp)
@@ -155,8 +196,10 @@ def drive(case):
         except Exception as e:
             return {'error': 'load:' + type(e).__name__, 'msg': str(e)[:300]}
         g = exp.experimentGraph
-        dw_name = 'stage%d.%s' % (case['S'], case['dwname'])
+        dw_names = ['stage%d.%s' % (l['S'], l['dwname']) for l in loops]
+        dw_name = dw_names[0]
         steps = []
+        conds = []      # Controller.comp_condition_to_dowhile after initialise and after every instantiation
         opts = case.get('ctl')
         ctl = keep = None
         if opts:
@@ -164,15 +207,18 @@ def drive(case):
                 ctl, keep = _new_controller(exp, opts['start'])
             except Exception as e:
                 return {'error': 'controller:' + type(e).__name__, 'msg': str(e)[:300]}
+            conds.append(dict(ctl.comp_condition_to_dowhile))
+        seq = sequence_of(case)
         try:
-            for it in range(case['k']):
-                node = g._documents[FlowIR.LabelDoWhile][dw_name]
+            for it, j in enumerate(seq):
+                node = g._documents[FlowIR.LabelDoWhile][dw_names[j]]
                 nxt = node['state']['currentIteration'] + 1
                 if ctl is not None:
                     before = set(g.graph.nodes)
                     ctl._instantiate_next_dowhile_iteration(node)
                     new = set(g.graph.nodes) - before
-                    if opts['inspect'] == 'each' and it + 1 < case['k']:
+                    conds.append(dict(ctl.comp_condition_to_dowhile))
+                    if opts['inspect'] == 'each' and it + 1 < len(seq):
                         _inspect(ctl, exp, keep, opts['start'], it)
                 else:
                     new = g.instantiate_dowhile_next_iteration(node['document'], nxt, False)
@@ -180,6 +226,8 @@ def drive(case):
         except Exception as e:
             return {'error': 'iterate:' + type(e).__name__, 'msg': str(e)[:300], 'steps': steps}
         obs['steps'] = steps
+        obs['step_docs'] = seq
+        obs['conds'] = conds
         gr = g.graph
         obs['nodes'] = sorted(gr.nodes)
         insts = {}
@@ -223,19 +271,25 @@ def drive(case):
             return ph, res
 
         obs['ctl'] = {}
+        obs['ctags'] = None
         if ctl is not None and opts['inspect'] in ('end', 'each'):
             # the metadata of the graph before and after the Controller looked at it
             before = metadata()
             try:
-                obs['ctl'] = _inspect(ctl, exp, keep, opts['start'], case['k'])
-                obs['ctl'] = _inspect(ctl, exp, keep, opts['start'], case['k'] + 1)   # a second look sees the same
+                obs['ctl'] = _inspect(ctl, exp, keep, opts['start'], len(seq))
+                obs['ctl'] = _inspect(ctl, exp, keep, opts['start'], len(seq) + 1)   # a second look sees the same
+                obs['ctags'] = obs['ctl'].pop('__ctags__')
             except Exception as e:
                 return {'error': 'inspect:' + type(e).__name__, 'msg': str(e)[:300], 'steps': steps}
             obs['inspection_changed'] = sorted(
                 ['placeholders'] * (before[0] != metadata()[0]) + ['resolve'] * (before[1] != metadata()[1]))
         obs['placeholders'], obs['resolve'] = metadata()
-        st = g._documents[FlowIR.LabelDoWhile][dw_name]['state']
-        obs['state'] = {'currentCondition': st['currentCondition'], 'currentIteration': st['currentIteration']}
+        obs['documents'] = list(g._documents[FlowIR.LabelDoWhile])
+        obs['states'] = {}
+        for n, meta in g._documents[FlowIR.LabelDoWhile].items():
+            st = meta['state']
+            obs['states'][n] = {'currentCondition': st['currentCondition'], 'currentIteration': st['currentIteration']}
+        obs['state'] = obs['states'].get(dw_name)
         if ctl is not None:
             after = dict((n, sorted(gr.predecessors(n))) for n in obs['nodes'])
             if after != preds or sorted(gr.nodes) != obs['nodes']:
@@ -243,10 +297,11 @@ def drive(case):
             obs['preds'] = after
         ids = g._concrete.get_component_identifiers(True)
         mp = {}
-        for c in case['comps']:
-            pid = (case['S'] + c['stage'], c['name'])
-            m = F.map_placeholder_id_to_iteration(pid, [], ids)
-            mp['stage%d.%s' % pid] = None if m is None else 'stage%d.%s' % m
+        for loop in loops:
+            for c in loop['comps']:
+                pid = (loop['S'] + c['stage'], c['name'])
+                m = F.map_placeholder_id_to_iteration(pid, [], ids)
+                mp['stage%d.%s' % pid] = None if m is None else 'stage%d.%s' % m
         obs['map_latest'] = mp
         return obs
     finally:
